@@ -148,7 +148,7 @@ def toOp : List Sx → Option Op
 def schedOut (d : DState) (s' : St) (err : Option Err) : List String :=
   let ret := match err with | none => "ret ok" | some e => s!"ret err {e.name}"
   let evs := s'.log.reverse.map evStr
-  let sts := d.handles.map (fun j => s!"st {j} {(s'.job j).status.name} {optStr (s'.job j).nextRun}")
+  let sts := d.handles.map (fun j => s!"st {j} {(s'.job j).status.name} {optStr (s'.job j).nextRun} {optStr (s'.job j).lastRun}")
   let keys := (s'.store.map (·.1)).toArray.qsort (· < ·) |>.toList
   let store := "store" ++ String.join (keys.map (fun k => s!" {k}"))
   [ret] ++ evs ++ sts ++ [store, s!"now {s'.now}"]
